@@ -96,6 +96,13 @@ fn parse_header(header: &str) -> Result<Header, ParseError> {
         return Err(ParseError::InvalidSuffix);
     }
 
+    if !header.ends_with(PROTOCOL_SUFFIX) {
+        return Err(match header.find(CARRIAGE_RETURN) {
+            Some(index) if index + 1 < header.len() => ParseError::InvalidSuffix,
+            _ => ParseError::MissingNewLine,
+        });
+    }
+
     Ok(Header {
         header: Cow::Borrowed(header),
         addresses,
